@@ -356,6 +356,8 @@ pub fn c01_families(tier: &str) -> Vec<SeqSpec> {
     // R: every second write rotates, so with the lazy policy reads happen while an immutable
     // memtable (e.g. holding a tombstone above a flushed value) is pending
     v.push(spec("F-fill/R", &["R"], k3(), a1(), if t { 6 } else { 4 }, READS).lazy());
+    // a memtable budget of one byte: every write rotates (also an empty memtable)
+    v.push(spec("F-fill/M0", &["M0", "M0n"], k3(), { let mut a = a1(); a.extend(reopen_ops(2)); a }, if t { 5 } else { 3 }, READS).lazy());
     if t {
         v.push(spec("F-fill/M2", &["M2"], k3(), a1(), 6, READS).bgfirst());
     }
@@ -406,6 +408,8 @@ pub fn c01_families(tier: &str) -> Vec<SeqSpec> {
         Op::Batch(vec![(1, false), (0, true), (1, true)]),
         // an empty batch: a 9-byte WAL record, no sequence number consumed
         Op::Batch(vec![]),
+        // operations in descending key order
+        Op::Batch(vec![(1, true), (0, true)]),
         Op::Put(0, 0),
         Op::Del(1),
         Op::Compact(None, None),
@@ -656,7 +660,7 @@ pub fn c03_seq_families(tier: &str) -> Vec<SeqSpec> {
             "C03-snap4/T300s4",
             &["T300s4"],
             k2(),
-            vec![Op::Put(0, 0), Op::Put(1, 0), Op::Del(0), Op::Snap, Op::Release(0), Op::Release(2), Op::Compact(None, None)],
+            vec![Op::Put(0, 0), Op::Put(1, 0), Op::Del(0), Op::Snap, Op::Release(0), Op::Release(1), Op::Release(2), Op::Compact(None, None)],
             if t { 7 } else { 5 },
             ck,
         )
